@@ -69,6 +69,7 @@ Separate Extraction
   Meaning.moves
   KnownC01.piece_boundary
   KnownC01.last_word_escape
+  KnownC01.greedy_shadow
   Domain.C01_domain
   Domain.C01_env_ok
   Ambig.find
